@@ -4,6 +4,7 @@ import (
 	"bytes"
 	"encoding/hex"
 	"fmt"
+	"strings"
 
 	"github.com/icon-project/goloop/consensus"
 	"github.com/icon-project/goloop/module"
@@ -50,6 +51,10 @@ func (s *sim) monitorVoteSets(n *node) {
 		n.sticky = map[stickyKey]stickyVal{}
 		n.stickyH = st.Height
 		n.stickyInc = n.inc.n
+	}
+	s.monitorLock(n, &st)
+	if s.rc.Failed() {
+		return
 	}
 	for _, vs := range st.VoteSets {
 		nv := len(vs.Slots)
@@ -110,4 +115,45 @@ func (s *sim) monitorVoteSets(n *node) {
 // checkDoubleSignReport: C06 "reported" half. Filled in by the byzantine file.
 func (s *sim) checkDoubleSignReport(n *node, data []module.DoubleSignData) {
 	s.checkDSD(n, data)
+}
+
+// monitorLock: white-box half of the lock-rule monitor (see lockrule.go). The
+// lock a correct validator holds on block X since round r may only be given up
+// (released, or replaced by a lock on another block) within the same height if
+// some round r'' > r has +2/3 prevotes for a value other than X on the wire.
+func (s *sim) monitorLock(n *node, st *consensus.SimState) {
+	prev := n.lock
+	cur := lockObs{inc: n.inc.n, h: st.Height, r: st.LockedRound, id: hex.EncodeToString(st.LockedID)}
+	n.lock = cur
+	if prev.inc != cur.inc || prev.h != cur.h || prev.r < 0 || prev.id == "" {
+		return
+	}
+	if cur.r >= 0 && cur.id == prev.id {
+		return // still locked on the same block (possibly at a later round)
+	}
+	s.rc.Probe("lock_given_up_within_height")
+	o := s.orc
+	if _, ok := o.validators[cur.h]; !ok {
+		o.ensureValidators(cur.h)
+	}
+	for rr := prev.r + 1; rr <= prev.r+64; rr++ {
+		if _, ok := o.prevotes[fmt.Sprintf("%d/%d", cur.h, rr)]; !ok {
+			if rr > st.Round+1 {
+				break
+			}
+			continue
+		}
+		if o.polka(cur.h, rr, func(v string) bool { return !strings.HasPrefix(v, prev.id+"/") }) {
+			s.rc.Probe("lock_released_by_later_polka")
+			return
+		}
+	}
+	s.rc.Violate("lock-rule", "lock-given-up-without-later-polka", "correct validator n%d held a lock on block %.12s since round %d of height %d and gave it up (now round %d, locked round %d) although no later round has +2/3 prevotes for anything else on the wire", n.idx, prev.id, prev.r, cur.h, st.Round, cur.r)
+}
+
+type lockObs struct {
+	inc int
+	h   int64
+	r   int32
+	id  string
 }
